@@ -30,6 +30,8 @@ class Engine(Core, ExprMixin, CallMixin, StmtMixin):
         self.last_sorted = None
         self.defaulted_params = []
         self.pure_cache = {}
+        self.sum_cache = {}
+        self.sum_sites = set()
 
     # read_field with the type invariant len >= 0
     def read_field(self, st, obj, attr, node=None, heap=None):
